@@ -72,7 +72,7 @@ try:
     caught, missed = [], []
     for cid in checks:
         t0 = time.time()
-        e = dict(os.environ, VERIF_REPO=wt, VERIF_SEED="1")
+        e = dict(os.environ, VERIF_REPO=wt, VERIF_SEED="1", VERIF_BINTAG=f".c{os.getpid()}")
         rc, out = sh(f"timeout 3600 ./check {cid}", cwd="/verif", e=e, timeout=4000)
         classes = re.findall(r'^VIOLATION property=\S+ replay=\S+ class="([^"]*)"', out, re.M)
         line = [l for l in out.splitlines() if l.startswith(cid + " tier=")]
@@ -82,6 +82,8 @@ try:
     res["missed_by"] = missed
 finally:
     subprocess.run(["git", "-C", "/repo", "worktree", "remove", "--force", wt])
+    for cid in checks:
+        shutil.rmtree(f"/verif/bin/{cid}.c{os.getpid()}", ignore_errors=True)
 
 shutil.copy(os.path.join(src, "patch.diff"), os.path.join(dst, "patch.diff"))
 if demo_src and os.path.exists(demo_src):
